@@ -327,6 +327,8 @@ def main(ctx):
         if not _finite(a, b):
             rec.fail(case, "%s: output not finite: lon=%r lat=%r" % (what, a.tolist(), b.tolist()))
             return False
+        if n == 0:
+            return True
         if a.min() < 0.0 or (a.max() > 360.0 if lon_closed else a.max() >= 360.0):
             rec.fail(case, "%s: longitude outside %s: %r" % (what, "[0,360]" if lon_closed else "[0,360)", a.tolist()))
             return False
@@ -388,11 +390,16 @@ def main(ctx):
             tag = "euler wrapper (%s b1950=%s, %s input)" % (name, b1950, form)
             lon = [p[0] for p in pts]
             lat = [p[1] for p in pts]
-            if form == "ndarray":
-                alon, alat = np.array(lon), np.array(lat)
-            else:
+            flag = b1950
+            if form == "list":
                 alon, alat = list(lon), list(lat)
-            ao, bo = euler_call(name, alon, alat, b1950)
+            else:
+                alon, alat = np.array(lon, dtype="f8"), np.array(lat, dtype="f8")
+                if form == "flag:numpy-bool":
+                    flag = np.bool_(b1950)      # what a comparison or a boolean table column yields
+                elif form == "flag:int":
+                    flag = int(b1950)
+            ao, bo = euler_call(name, alon, alat, flag)
             if not check_lonlat(case, rec, tag, ao, bo, len(pts)):
                 return
             if form == "ndarray" and not (same_bits(alon, np.array(lon)) and same_bits(alat, np.array(lat))):
@@ -448,6 +455,10 @@ def main(ctx):
             for form in ("ndarray", "list"):
                 for ch in chunks(windows(pts), 20):
                     aunits.append((sel, b1950, form, tuple(ch)))
+            # the epoch flag as a numpy bool / an int (same truth value, same conversion); empty input
+            for form in ("flag:numpy-bool", "flag:int"):
+                aunits.append((sel, b1950, form, tuple(windows(pts)[:6])))
+            aunits.append((sel, b1950, "ndarray", ((),)))
 
     def expand_earr(u):
         sel, b1950, form, wins = u
@@ -455,7 +466,7 @@ def main(ctx):
             yield ("arr", sel, b1950, form, w)
 
     ctx.lattice("euler-arrays", aunits, guarded(one_euler), expand=expand_earr,
-                bounds=dict(window=3, forms=["ndarray", "list"]))
+                bounds=dict(window=3, forms=["ndarray", "list", "epoch flag as numpy.bool_", "epoch flag as int", "empty arrays"]))
 
     # pairs: every unordered pair of the points of a conversion
     pdists = DISTS
@@ -793,6 +804,7 @@ def main(ctx):
             xunits += [("arr", stomp, form, tuple(ch)) for ch in chunks(windows(xy_pts), 10)]
         xunits += [("pair", stomp, xy_pairs[i], tuple(xy_pairs[:i])) for i in range(1, len(xy_pairs))]
         xunits += [("rad", stomp, tuple(ch)) for ch in chunks(windows(xy_pts), 10)]
+        xunits += [("arr", stomp, "ndarray", ((),))]      # empty arrays: eq2xyz -> xyz2eq of nothing is nothing
 
     def expand_xyz(u):
         if u[0] == "eq":
@@ -816,7 +828,8 @@ def main(ctx):
                             stomp=[False, True], units=["deg", "rad (eq2xyz only: forward, non-modification, repeatability)"]))
 
     # ------------------------------------------------------------ rotate
-    ANG = [0.0, 10.0, -10.0, 8.0, 90.0, 123.0, 180.0, 270.0, 360.0] + ctx.pick([], [33.3, -round(gen[1][0] / 2, 1)])
+    # (angles beyond one turn too: an accumulated spin angle is a legitimate Euler angle)
+    ANG = [0.0, 10.0, -10.0, 8.0, 90.0, 123.0, 180.0, 270.0, 360.0, 725.0, -1000.0] + ctx.pick([], [33.3, -round(gen[1][0] / 2, 1), 1234.5])
     RDISTS = [1e-9, 1e-6, 1e-3, 1.0]
 
     def rot_matrix(phi, theta, psi):
